@@ -361,7 +361,7 @@ class Rinex212NavParser(ChainParser):
 
         # TODO: RINEX header in between the navigation message blocks is not handled so far!!! Following lines are only
         #      a workaround to skip these RINEX header lines.
-        if line["sat_clock_drift_rate"][0].isalpha():
+        if line["sat_clock_drift_rate"][:1].isalpha():  # the field may be blank (= 0.0)
             cache["skip_additional_header_line"] = True
             return
 
